@@ -244,7 +244,44 @@ func (e *DeploymentEnv) Steps(w *World) []string {
 	return out
 }
 
+// Do performs one unit step and then lets the statuses catch up in the same transition (ReplicaSet status
+// from its pods, Deployment status from its ReplicaSets): the real controllers write their status at the end
+// of every sync. Observing a NEW GENERATION of a Deployment stays a step of its own, so the window
+// "generation != observedGeneration" remains visible to the repository's controllers.
 func (e *DeploymentEnv) Do(w *World, label string) error {
+	if err := e.do(w, label); err != nil {
+		return err
+	}
+	ctx := context.TODO()
+	for _, rs := range e.replicaSets(w) {
+		if rs.DeletionTimestamp != nil {
+			continue
+		}
+		if want := desiredRSStatus(w, rs); !rsStatusEqual(rs.Status, want) {
+			c := rs.DeepCopy()
+			c.Status = want
+			if err := w.Raw.Status().Update(ctx, c); err != nil {
+				return err
+			}
+		}
+	}
+	all := e.replicaSets(w)
+	for _, d := range e.deployments(w) {
+		if d.DeletionTimestamp != nil || d.Status.ObservedGeneration != d.Generation {
+			continue
+		}
+		if want := desiredDeployStatus(d, ownedRS(d, all)); !deployStatusEqual(d.Status, want) {
+			c := d.DeepCopy()
+			c.Status = want
+			if err := w.Raw.Status().Update(ctx, c); err != nil {
+				return err
+			}
+		}
+	}
+	return nil
+}
+
+func (e *DeploymentEnv) do(w *World, label string) error {
 	ctx := context.TODO()
 	var kind, name, step string
 	for i, part := range splitN(label, "/", 3) {
